@@ -1084,8 +1084,8 @@ class TrigInfo:
             notify_type = "shutdown"
             notify_info = {"trigger_type": "time", "trigger_time": "shutdown"}
             notify_info.update(self.time_trigger_kwargs.get("kwargs", {}))
-            action_future = self.call_action(notify_type, notify_info, run_task=False)
-            Function.waiter_await(action_future)
+            action_future, action_ast_ctx = self.call_action(notify_type, notify_info, run_task=False)
+            Function.waiter_await(action_future, ast_ctx=action_ast_ctx)
 
     def start(self):
         """Start this trigger task."""
@@ -1476,4 +1476,4 @@ class TrigInfo:
             task = Function.create_task(func, ast_ctx=action_ast_ctx)
             Function.task_done_callback_ctx(task, action_ast_ctx)
             return True
-        return func
+        return func, action_ast_ctx
